@@ -910,6 +910,18 @@ func (ev *Eval) call(e *Expr) *Value {
 			ev.fail("as: %s is not a pointer type", e.Args[1].Name)
 		}
 		return &Value{T: t, L: []*Term{x.L[1]}}
+	case "deref":
+		// deref(p): the value p points to, read in the state the expression is evaluated in (old(deref(p)) for the pre-state)
+		x := ev.eval(e.Args[0])
+		pt, ok := under(x.T).(*types.Pointer)
+		if !ok || len(e.Args) != 1 {
+			ev.fail("deref(p) needs a pointer")
+		}
+		ev.v.suppressObs++
+		lv := ev.v.lvOf(ev.state(), x, token.NoPos)
+		ev.v.suppressObs--
+		val := ev.state().load(lv)
+		return &Value{T: pt.Elem(), L: val.L}
 	case "asString":
 		// the string held by an interface value (any) whose dynamic type is string
 		x := ev.eval(e.Args[0])
